@@ -642,9 +642,19 @@ func GenBatchOf(r *rand.Rand, n int, prefix string) Batch {
 func GenBatch(r *rand.Rand, n int) Batch { return genBatch(r, n, batchTemplates) }
 
 func genBatch(r *rand.Rand, n int, templates []batchTemplate) Batch {
+	var ent []batchTemplate
+	for _, t := range templates {
+		if strings.HasPrefix(t.name, "ent-") {
+			ent = append(ent, t)
+		}
+	}
 	b := Batch{Contracts: []prog.Step{dep(1, "Lib", libContract), dep(2, "Lib2", lib2Contract), dep(3, "Lib3", lib3Contract), dep(4, "Ent", entContract)}}
 	for i := 0; i < n; i++ {
 		t := templates[r.Intn(len(templates))]
+		if len(ent) > 0 && len(ent) < len(templates) && r.Intn(3) == 0 {
+			// the entitlement templates get extra weight (about half of the programs)
+			t = ent[r.Intn(len(ent))]
+		}
 		s := t.gen(r)
 		s.Name = t.name
 		b.Programs = append(b.Programs, s)
